@@ -370,6 +370,7 @@ func c03Cases(c *h.Ctx) error {
 						c.Fail("header.Header.SetPID", "layout-after-second-set:"+c03FieldAt(c03FirstDiff(b2s, want)), fmt.Sprintf("SetPID(%#x) after SetPID(%#x): code %s spec %s, GetPID %#x", small, uint32(ln.SetPID), h.Hex(b2s), h.Hex(want), uint32(hd.GetPID())), smp)
 					}
 					hd.SetPID(types.ULONG(ln.SetPID)) // back to the value the following steps expect
+					hd.Marshal()                      // ... and encoded once more, so that the LAST encoding is the one of these fields
 				}
 				// the security features are changed IN PLACE through the pointer the header holds (the signing flow: encode,
 				// compute the MAC, SetSecuritySignature, encode again; a connectionless retransmit: SequenceNumber++): the next
